@@ -123,7 +123,7 @@ CHECKS["C01"]["text"] += (" A third part (spec/VerifyIsolation.tla) model-checks
                           "region that verify genuine and altered quotes at the same time: every verdict must be the verdict of the goroutine's own input.")
 CHECKS["C06"]["text"] += " Timed histories with Options.Now == nil (the leaf expires between two calls; the first call succeeds, or fails while fetching) are part of it."
 CHECKS["C08"]["text"] += " The same cases are also run as policy messages through PolicyToOptions (dense and sparse messages)."
-CHECKS["C10"]["text"] += " A fifth part serves every HTTP response shape of spec/HttpsGet.tla (statuses, redirects, TLS faults, truncated and absurdly long bodies) to trust.SimpleHTTPSGetter under the same totality judge."
+CHECKS["C10"]["text"] += " A fifth part serves every HTTP response shape of spec/HttpsGet.tla (statuses, redirects, TLS faults, truncated and absurdly long bodies) to trust.SimpleHTTPSGetter under the same totality judge. abi.SignatureToDER is called on every byte string, its first 64 bytes and the bytes at the signature offset (its DER must decode to the given r and s, reported as a note)."
 CHECKS["C11"]["text"] += " spec/SystemAbstraction.tla checks (TLC) that the composition's one-line abstractions agree with TdxVerify, GuestClient and CheckTool."
 CHECKS["C15"]["text"] += " Cases are also run after an earlier call in the same process (a successful device call on the same goroutine; a provider that answered IsSupported differently); devices may leave OutLen unwritten or rewrite the request length; result codes include values whose low 32 bits are zero."
 CHECKS["C17"]["text"] += " Added by case extension: every crypto.Hash value 0..31, indices beyond 32 bits, and TSM write faults (mkdir / index / digest failing in a call that reaches it) followed by calls that must be unaffected."
